@@ -121,7 +121,11 @@ inline Py_ALWAYS_INLINE T ListGetItemAs(const py::handle& list, const py::ssize_
     }
     return py::reinterpret_steal<T>(item);
 #else
-    return py::reinterpret_borrow<T>(PyList_GET_ITEM(list.ptr(), index));
+    PyObject* const item = PyList_GetItem(list.ptr(), index);
+    if (item == nullptr) [[unlikely]] {
+        throw py::error_already_set();
+    }
+    return py::reinterpret_borrow<T>(item);
 #endif
 }
 inline Py_ALWAYS_INLINE py::object ListGetItem(const py::handle& list, const py::ssize_t& index) {
@@ -140,7 +144,14 @@ inline Py_ALWAYS_INLINE T DictGetItemAs(const py::handle& dict, const py::handle
     }
     return py::reinterpret_steal<T>(value);
 #else
-    return py::reinterpret_borrow<T>(PyDict_GetItem(dict.ptr(), key.ptr()));
+    PyObject* const value = PyDict_GetItemWithError(dict.ptr(), key.ptr());
+    if (value == nullptr) [[unlikely]] {
+        if (PyErr_Occurred() == nullptr) [[likely]] {
+            py::set_error(PyExc_KeyError, py::make_tuple(key));
+        }
+        throw py::error_already_set();
+    }
+    return py::reinterpret_borrow<T>(value);
 #endif
 }
 inline Py_ALWAYS_INLINE py::object DictGetItem(const py::handle& dict, const py::handle& key) {
